@@ -41,7 +41,7 @@ def run(ctx, fb, cfg):
     extra = []
     if cfg == "all-targets":
         for k in fb.files:
-            if k[2]:  # example binaries: generated #[compound] types
+            if k[2] and k[0] not in ("proto_vulcan", "proto_vulcan_macros"):  # example binaries: generated #[compound] types
                 c = fb.crate(*k)
                 if c is not None:
                     extra.append(c)
@@ -63,7 +63,9 @@ def run(ctx, fb, cfg):
     for c in extra:
         v2, f2 = mutaudit.type_closure(c)
         for kind, where, what in f2:
-            if kind != "unresolved-foreign" or not what.startswith("proto_vulcan::"):
+            # types of the library itself are covered by the library's own closure above
+            lib_type = what.startswith("proto_vulcan::") or what.startswith("crate::proto_vulcan::")
+            if kind != "unresolved-foreign" or not lib_type:
                 ctx.violation(rule, "example:%s|%s|%s|%s" % (c.name, kind, where, what), "", "generated compound type in example %s reaches %s (%s)" % (c.name, what, kind))
         ctx.ok(rule, "example:%s|type-closure" % c.name, "", "%d ADTs" % len(v2))
     # positive control
